@@ -65,14 +65,14 @@ static struct tq g_q0, g_q1;                     /* the two queue objects (add_n
 
 struct hops {
   int exc;                                       /* != 0: an exception propagates out of the call (token = error value) */
-  int self;                                      /* Q_ID of the queue the call runs on (the RECEIVER in add_new) */
+  int err;                                       /* != 0: an error was reported (exception or error_code) */
   struct thread_data victim_td, other_td;
   struct task_description victim_task, other_task, new_task;
   struct thread_init_data victim_init, other_init;
   /* where the victim is (besides q->gs_victim) */
   bool v_mine, v_map, v_queued, v_term, v_heap;
   /* staged */
-  long pops, v_pops; bool expect_steal;
+  long pops, v_pops;
   long task_allocs, task_ctors, task_dtors, task_frees; int ctor_from, freed_last, last_pop, push_id;
   /* map */
   long map, map_pend, map_owed, ins, ins_fail, map_incs, erases, map_decs, v_ins, v_erases; int ins_id;
@@ -81,14 +81,21 @@ struct hops {
   long sched, v_sched; int sched_id; bool sched_other_end;
   /* terminated */
   long term, term_pend, term_owed, term_pushes, term_pops, term_incs, term_decs, v_term_pushes, v_term_pops; int term_push_id;
-  bool term_pops_by_others, touched_after_push;
+  bool touched_after_push;
   /* heaps */
   long recycles, v_recycles; int recycle_id;
 };
 static struct hops G;
+/* configuration of the harness: written by the harness only, never in a frame */
+struct hops_cfg {
+  int self;                                      /* Q_ID of the queue the call runs on (the RECEIVER in add_new) */
+  bool expect_steal;
+  bool term_pops_by_others;                      /* false while this call holds mtx_: terminated_items_ is popped only under the lock */
+};
+static struct hops_cfg CFG;
 static struct error_code throws;                 /* pika::throws: the address is the "please throw" marker */
 #define vx_exc G.exc
-#define g_self (G.self == 1 ? &g_q0 : &g_q1)
+#define g_self (CFG.self == 1 ? &g_q0 : &g_q1)
 #define g_victim_td G.victim_td
 #define g_other_td G.other_td
 #define g_victim_task G.victim_task
@@ -101,7 +108,7 @@ static struct error_code throws;                 /* pika::throws: the address is
 #define gv_heap G.v_heap
 #define g_pops G.pops
 #define g_v_pops G.v_pops
-#define g_expect_steal G.expect_steal
+#define g_expect_steal CFG.expect_steal
 #define g_task_allocs G.task_allocs
 #define g_task_ctors G.task_ctors
 #define g_task_dtors G.task_dtors
@@ -135,9 +142,15 @@ static struct error_code throws;                 /* pika::throws: the address is
 #define IS_VICTIM_DATA(p) ((p) == &G.victim_task.data || (p) == &G.victim_init)
 
 /* ---- exceptions / error_code (throw-vs-ec is decided in C16/C19; here: "never silently dropped") ---- */
-static void vx_throw(int e) { VX_ASSERT(vx_exc == 0, "second throw while an exception propagates"); vx_exc = e; }
-static void vx_throws_if(struct error_code *ec, int e) { if (ec == &throws) vx_throw(e); else ec->value = e; }
+static void vx_throw(int e) { VX_ASSERT(vx_exc == 0, "second throw while an exception propagates"); vx_exc = e; G.err = e; }
+static void vx_throws_if(struct error_code *ec, int e) { if (ec == &throws) vx_throw(e); else { ec->value = e; G.err = e; } }
 static struct error_code make_success_code(void) { struct error_code r; r.value = error_success; return r; }
+
+/* ---- thread_id_ref_type locals: std::move empties the source; a local that still holds the (only) reference when it goes
+ * out of scope destroys the thread object -- legitimate only on a path that reports an error ---- */
+static thread_id_ref_type vx_move_tid(thread_id_ref_type *p) { thread_id_ref_type r = *p; *p = NULL; return r; }
+static void tid_release(thread_id_ref_type *p)
+{ VX_ASSERT(*p == NULL || G.err != 0, "a new thread object goes out of scope without having been queued or returned: the task would be dropped silently"); }
 
 /* ---- where the victim is ---- */
 #define GV_STAGED (g_q0.gs_victim || g_q1.gs_victim)
@@ -176,6 +189,7 @@ static int64_t atomic_dec_new_tasks_count_(struct tq *q)
 {
   nt_interfere(q);
   VX_ASSERT(q->gs_owed >= 1, "new_tasks_count_ of a queue is decremented only AFTER this call removed a task from THAT queue's new_tasks_");
+  VX_ASSERT(g_map_pend == 0, "a converted task is counted in thread_map_count_ BEFORE it is un-staged (thread_map_count_ + new_tasks_count_ never under-approximates the live tasks)");
   q->new_tasks_count_ = q->new_tasks_count_ - 1; q->gs_owed--; q->gs_decs++;
   VX_ASSERT(NTINV(q), "staged ledger: new_tasks_count_ >= entries after the decrement");
   return q->new_tasks_count_;
@@ -221,7 +235,7 @@ static bool nt_pop(struct tq *q, task_handle *out, bool steal)
     if (take_victim) { q->gs_victim = false; gv_mine = true; BUMP(g_v_pops); *out = 1; }
     else { *out = 2; g_other_task.data.stacksize = nondet_i8(); g_other_task.data.priority = nondet_i8(); g_other_task.data.run_now = nondet_bool(); }
     TASKP(*out)->data.initial_state = thread_schedule_state_pending;
-    G.last_pop = *out;
+    G.last_pop = *out; if (G.freed_last == *out) G.freed_last = 0;   /* a description that is in the queue is a live one */
     VP_CHECK("new_tasks_.pop");
     return true;
   }
@@ -307,6 +321,7 @@ static void cto(struct tq *q, thread_id_ref_type *thrd, struct thread_init_data 
   VX_ASSERT(OWNS(lk) && lk->m == &q->mtx_, "create_thread_object precondition: the queue's lock is held");
   VX_ASSERT(*thrd == NULL, "the id that receives the new object is empty");
   VX_ASSERT(G.last_pop == 0 || DATA_ID(data) == G.last_pop, "the thread object is made from the description that was just popped");
+  VX_ASSERT(G.freed_last == 0 || DATA_ID(data) != G.freed_last, "the description is not used after it was freed");
   g_cto++; G.cto_data = DATA_ID(data); G.cto_requested = data->initial_state;
   if (data->initial_state == thread_schedule_state_pending_do_not_schedule || data->initial_state == thread_schedule_state_pending_boost)
     data->initial_state = thread_schedule_state_pending;
@@ -337,7 +352,8 @@ static void tq_schedule_thread(struct tq *q, thread_id_ref_type thrd, bool other
     VX_ASSERT(gv_map, "a thread is in the map of its queue before it becomes pending");
     gv_queued = true; gv_mine = false; BUMP(g_v_sched);
   }
-  if (nondet_bool()) { q->work_items_count_ = nondet_i64(); VX_ASSUME(q->work_items_count_ >= 0 && q->work_items_count_ < 2 * VX_BIG); }
+  if (nondet_bool()) q->work_items_count_ = nondet_i64();           /* other workers push and pop at any time */
+  VX_ASSUME(q->work_items_count_ >= 0 && q->work_items_count_ < 2 * VX_BIG);   /* counter bound 2*10^9 (listed) */
   q->work_items_count_ = q->work_items_count_ + 1;
   VX_ASSUME(g_sched < VX_BIG);
   g_sched++; G.sched_id = TD_ID(thrd); G.sched_other_end = other_end;
@@ -352,7 +368,7 @@ static void term_interfere(struct tq *q)
   if (nondet_bool())
   {
     long e = nondet_long();
-    VX_ASSUME(G.term_pops_by_others || e >= g_term);                /* other destroy_thread calls push (and count) at any time */
+    VX_ASSUME(CFG.term_pops_by_others || e >= g_term);                /* other destroy_thread calls push (and count) at any time */
     g_term = e; q->terminated_items_count_ = nondet_i64();
     if (!gv_mine && gv_map && !gv_queued && !gv_term && nondet_bool()) gv_term = true;   /* ... possibly the victim, once its last reference died */
     VX_ASSUME(TERMRANGE(q, 8) && TERMINV(q));
@@ -408,7 +424,7 @@ static void hops_task_init(struct thread_init_data *d)
 static void hops_ghost_init(void)
 {
   G = (struct hops){0};                                   /* every counter 0, every flag false, every id 0 */
-  G.self = 1; G.term_pops_by_others = true; throws.value = 0;
+  CFG.self = 1; CFG.expect_steal = false; CFG.term_pops_by_others = true; throws.value = 0;
   hops_task_init(&G.victim_task.data); hops_task_init(&G.other_task.data); hops_task_init(&G.new_task.data);
   hops_task_init(&G.victim_init); hops_task_init(&G.other_init);
 }
